@@ -4,7 +4,7 @@ package main
 // Runner for the case lines documented in lean/FpgoVerif/Model/C10.lean:
 //   seq/sched:  s[@q][:script] ; u[@q]:<id> ; p[@q]:<v> ; c[@q] ; m[@q]:<f> ; h[@q] ; go<t>[@q]:<v> ; adv<t> ; fin<t>
 //   stress:     k=v parameters (see c10_stress.go)
-// Observation: one token per op joined by " | ":  +id | - | n=k | m<q> | h | [q.sid:v ...] (+P/D for background ops)
+// Observation: one token per op joined by " | ":  +id | - | n=k | m<q> | h | [q.sid:v ...] (+P<q>.<v> or D for background ops)
 
 import (
 	"fmt"
@@ -25,6 +25,7 @@ const (
 // ---- park controller for the background publisher goroutines -------------------------------------------
 
 type c10Thr struct {
+	gid              int64
 	parkSnap, parkBD bool
 	arrived          chan string // point name, "done" or "panic"
 	resume           chan struct{}
@@ -80,7 +81,7 @@ type c10World struct {
 	mu      sync.Mutex
 	pubs    []*c10Pub
 	events  []c10Ev
-	depth   map[int64]int
+	depth   map[int64][]c10Ev // per goroutine: the publishes initiated by the harness that are active (q, v)
 	ctl     *c10Ctl
 	threads map[int]*c10Thr
 }
@@ -114,20 +115,31 @@ func (w *c10World) takeEvents() string {
 func (w *c10World) getDepth(gid int64) int {
 	w.mu.Lock()
 	defer w.mu.Unlock()
-	return w.depth[gid]
+	return len(w.depth[gid])
 }
 
-func (w *c10World) addDepth(gid int64, d int) {
+// "P<q>.<v>": the innermost harness-initiated Publish the goroutine is inside
+func (w *c10World) parkedAt(gid int64) string {
 	w.mu.Lock()
-	w.depth[gid] += d
-	w.mu.Unlock()
+	defer w.mu.Unlock()
+	st := w.depth[gid]
+	if len(st) == 0 {
+		return "P"
+	}
+	return fmt.Sprintf("P%d.%d", st[len(st)-1].q, st[len(st)-1].v)
 }
 
 // publish initiated by the harness (counted in the nesting depth of the calling goroutine)
 func (w *c10World) publish(pub *c10Pub, v int) {
 	gid := fpgo.VerifGoID()
-	w.addDepth(gid, 1)
-	defer w.addDepth(gid, -1)
+	w.mu.Lock()
+	w.depth[gid] = append(w.depth[gid], c10Ev{q: pub.idx, v: v})
+	w.mu.Unlock()
+	defer func() {
+		w.mu.Lock()
+		w.depth[gid] = w.depth[gid][:len(w.depth[gid])-1]
+		w.mu.Unlock()
+	}()
 	pub.p.Publish(v)
 }
 
@@ -233,7 +245,7 @@ func (w *c10World) waitThr(t *c10Thr) string {
 		if r == "panic" {
 			return "panic"
 		}
-		return w.takeEvents() + "P"
+		return w.takeEvents() + w.parkedAt(t.gid)
 	case <-time.After(c10Wait):
 		return "hang"
 	}
@@ -306,6 +318,7 @@ func (w *c10World) doOp(tok string) (out string) {
 		go func() {
 			gid := fpgo.VerifGoID()
 			w.ctl.mu.Lock()
+			t.gid = gid
 			w.ctl.thrs[gid] = t
 			w.ctl.mu.Unlock()
 			defer func() {
@@ -346,7 +359,7 @@ func c10RunOps(body string) string {
 	ctl := &c10Ctl{thrs: map[int64]*c10Thr{}}
 	fpgo.VerifSetController(ctl)
 	defer fpgo.VerifSetController(nil)
-	w := &c10World{depth: map[int64]int{}, ctl: ctl, threads: map[int]*c10Thr{}}
+	w := &c10World{depth: map[int64][]c10Ev{}, ctl: ctl, threads: map[int]*c10Thr{}}
 	w.pubs = []*c10Pub{{idx: 0, p: fpgo.PublisherNewGenerics[int]()}}
 	var outs []string
 	for _, tok := range strings.Split(body, ";") {
